@@ -177,41 +177,47 @@ def check_map_fold(ctx, cfg):
     db = ctx.db(cfg)
     owners = owner_adts(db)
     n = 0
-    # map
+    # map: every from_iter pipeline in the body (one per branch, if the body branches on needs_drop) must match
     key = FS + "map"
     b = ctx.body(cfg, key, rule)
     if b is not None:
         an = ctx.analysis(cfg, key)
         N = an.tenv.length(adt_args(b["impl_self"])[1])
         fi = [c for c in an.calls if c.fn == "core::iter::FromIterator::from_iter"]
-        ok = len(fi) == 1
-        det = "expected from_iter(map(iter, closure))"
-        if ok:
-            pipe = fi[0].args[0]
+        ok = len(fi) >= 1
+        dets = []
+        for f in fi:
+            pipe = f.args[0]
             shape = isinstance(pipe, tuple) and len(pipe) == 5 and pipe[:3] == ("V", "iter", "map")
-            src_ok = shape and full_slice(an, fi[0].facts, pipe[3], N, consumer_array_base(an, fi[0], owners)(("V", "arg", 1)))
+            src_ok = shape and full_slice(an, f.facts, pipe[3], N, consumer_array_base(an, f, owners)(("V", "arg", 1)))
             cb, ca = closure_body(ctx, cfg, pipe[4]) if shape else (None, None)
             c_ok = False
             if ca is not None:
                 v = read_of(ca, slot_val())
                 once, args_ok, call = check_f_call(ca, [v]) if v is not None else (False, False, None)
                 c_ok = once and args_ok and call is not None and all(r["val"] == call.ret for r in ca.returns)
-            ret_ok = all(r["val"] == fi[0].ret for r in an.returns)
-            ok = shape and src_ok and c_ok and ret_ok and not bad_adaptors(pipe)
-            det = "from_iter(map(iter over the whole source array (forward), cl)): %s/%s; closure = f(read(slot)) once, result yielded: %s; no reordering adaptor: %s" % (shape, src_ok, c_ok, not bad_adaptors(pipe))
-        ctx.ob(rule, key, ok, det, at=b["at"], cfg=cfg)
+            good = shape and src_ok and c_ok and not bad_adaptors(pipe)
+            ok = ok and good
+            dets.append("from_iter(map(iter over the whole source array (forward), cl)): %s/%s; closure = f(read(slot)) once, result yielded: %s; no reordering adaptor: %s" % (shape, src_ok, c_ok, not bad_adaptors(pipe)))
+        others = [c.fn for c in an.calls if c.fn.startswith("core::iter::") and c.fn.split("::")[-1] in ("fold", "rfold", "for_each", "try_fold", "collect")]
+        ok = ok and not others and all(any(r["val"] == f.ret for f in fi) or r["val"][0] == "V" for r in an.returns)
+        ctx.ob(rule, key, ok, "; ".join(dets) if dets else "no from_iter pipeline found", at=b["at"], cfg=cfg)
         n += 1
     key = FS + "fold"
     b = ctx.body(cfg, key, rule)
     if b is not None:
         an = ctx.analysis(cfg, key)
         N = an.tenv.length(adt_args(b["impl_self"])[1])
-        fo = [c for c in an.calls if c.fn in ("core::iter::Iterator::fold", "core::iter::DoubleEndedIterator::rfold")]
-        ok = len(fo) == 1 and fo[0].fn == "core::iter::Iterator::fold"
-        det = "expected iter.fold(init, closure); found %s" % [c.fn for c in fo]
-        if ok:
-            it_, init, cv = fo[0].args
-            src_ok = full_slice(an, fo[0].facts, it_, N, consumer_array_base(an, fo[0], owners)(("V", "arg", 1)))
+        fo = [c for c in an.calls if c.fn.startswith("core::iter::") and c.fn.split("::")[-1] in ("fold", "rfold", "try_fold", "try_rfold", "for_each", "reduce")]
+        ok = len(fo) >= 1
+        dets = []
+        for f in fo:
+            if f.fn != "core::iter::Iterator::fold":
+                ok = False
+                dets.append("traversal by %s (a left fold must use Iterator::fold over the forward iterator)" % f.fn)
+                continue
+            it_, init, cv = f.args
+            src_ok = full_slice(an, f.facts, it_, N, consumer_array_base(an, f, owners)(("V", "arg", 1)))
             cb, ca = closure_body(ctx, cfg, cv)
             c_ok = False
             if ca is not None:
@@ -219,9 +225,11 @@ def check_map_fold(ctx, cfg):
                 v = rs[0].ret if len(rs) == 1 else None
                 once, args_ok, call = check_f_call(ca, [("V", "arg", 2), v]) if v is not None else (False, False, None)
                 c_ok = once and args_ok and call is not None and all(r["val"] == call.ret for r in ca.returns)
-            ok = src_ok and init == ("V", "arg", 2) and c_ok and all(r["val"] == fo[0].ret for r in an.returns) and not bad_adaptors(it_)
-            det = "fold(iter over the whole source array (forward), init, cl): %s; init passed through: %s; closure = f(acc, read(slot)) once: %s" % (src_ok, init == ("V", "arg", 2), c_ok)
-        ctx.ob(rule, key, ok, det, at=b["at"], cfg=cfg)
+            good = src_ok and init == ("V", "arg", 2) and c_ok and not bad_adaptors(it_)
+            ok = ok and good
+            dets.append("fold(iter over the whole source array (forward), init, cl): %s; init passed through: %s; closure = f(acc, read(slot)) once: %s" % (src_ok, init == ("V", "arg", 2), c_ok))
+        ok = ok and all(any(r["val"] == f.ret for f in fo) or r["val"][0] == "V" for r in an.returns)
+        ctx.ob(rule, key, ok, "; ".join(dets) if dets else "no fold found", at=b["at"], cfg=cfg)
         n += 1
     return n
 
